@@ -27,6 +27,8 @@ EXPLANATION = (
     ' R13.6 also compares the three branch formulas of the hue getter symbolically (min/max opaque) with'
     ' (g-b)/6D, 1/3 + (b-r)/6D and 2/3 + (r-g)/6D for the largest channel red, green, blue: the h/s/l setters'
     ' read the colour back through this getter.'
+    ' R13.6 also requires every division of the saturation getter to be dominated by max != min (the achromatic'
+    ' exit): 2 - max - min is 0 for white.'
 )
 TECHNIQUE = (
     "static analysis (no execution): 147-keyword if-chain vs CSS table incl. shadowing; hex layouts by partial evaluation on marker strings; channel bit-field layouts evaluated symbolically; regex-vs-converter language inclusion"
